@@ -116,4 +116,32 @@ theorem hasFoldRune_ascii (s : List Byte) (h : allAscii s = true) : hasFoldRune 
   simp only [Bool.or_eq_true, beq_iff_eq, not_or]
   constructor <;> omega
 
+/-! ### `strings.ToUpper` of an ASCII literal is the byte-wise upper case -/
+
+/-- the byte-wise upper case the keyword tests of the ASCII models used (`Clustal.upper` = `Stockholm.upper` =
+`Nexus.upper` unfold to it) -/
+def upperByte (b : Byte) : Byte := if 97 ≤ b && b ≤ 122 then b - 32 else b
+
+set_option maxRecDepth 100000 in
+theorem upperRune_ascii : ∀ b : Byte, b < 0x80 → encodeRune (upperRune b.toNat) = [upperByte b] := by decide
+
+theorem upperLit_aux_ascii : ∀ (s : List Byte) (fuel : Nat), s.length ≤ fuel → allAscii s = true →
+    ((runesAux fuel s).map upperRune).flatMap encodeRune = s.map upperByte
+  | [], fuel, _, _ => by cases fuel <;> simp [runesAux]
+  | b :: bs, 0, h, _ => by simp at h
+  | b :: bs, fuel + 1, h, ha => by
+    have hb : b < 0x80 := by simp [allAscii] at ha; exact ha.1
+    have hr : allAscii bs = true := by simp [allAscii] at ha ⊢; exact ha.2
+    simp only [runesAux, decodeRune_ascii b bs hb, List.drop_succ_cons, List.drop_zero, List.map_cons, List.flatMap_cons,
+      upperRune_ascii b hb]
+    rw [upperLit_aux_ascii bs fuel (by simpa using h) hr]
+    rfl
+
+/-- on an ASCII literal `strings.ToUpper` is the byte-wise upper case of the ASCII models -/
+theorem upperLit_ascii (s : List Byte) (h : allAscii s = true) : upperLit s = s.map upperByte :=
+  upperLit_aux_ascii s s.length (Nat.le_refl _) h
+
+theorem allAscii_of_forall (s : List Byte) (h : ∀ b ∈ s, b < 0x80) : allAscii s = true := by
+  simpa [allAscii] using h
+
 end Gv.Proofs.Utf8Norm
